@@ -233,12 +233,14 @@ def _root_.PycModel.StmtSkel.SL.append : StmtSkel.SL → StmtSkel.SL → StmtSke
   | .nil, b => b
   | .cons s r, b => .cons s (r.append b)
   | .consD dc r, b => .consD dc (r.append b)
+  | .consP p r, b => .consP p (r.append b)
 
 open PycModel.StmtSkel in
 theorem append_ntoks : ∀ (a b : SL), (a.append b).ntoks = a.ntoks + b.ntoks
   | .nil, b => by simp [SL.append, SL.ntoks]
   | .cons s r, b => by simp [SL.append, SL.ntoks, append_ntoks r b, Nat.add_assoc]
   | .consD dc r, b => by simp [SL.append, SL.ntoks, append_ntoks r b, Nat.add_assoc]
+  | .consP p r, b => by simp [SL.append, SL.ntoks, append_ntoks r b, Nat.add_assoc]
 
 open PycModel.StmtSkel in
 /-- the block items are the concatenation of the items' values, in order -/
@@ -247,6 +249,7 @@ theorem block_items_concat : ∀ (n : Nat) (a b : SL),
   | n, .nil, b => by simp [SL.vals, SL.ntoks, SL.append]
   | n, .cons s r, b => by simp [SL.vals, SL.ntoks, SL.append, block_items_concat _ r b, Nat.add_assoc]
   | n, .consD dc r, b => by simp [SL.vals, SL.ntoks, SL.append, block_items_concat _ r b, Nat.add_assoc]
+  | n, .consP p r, b => by simp [SL.vals, SL.ntoks, SL.append, block_items_concat _ r b, Nat.add_assoc]
 
 open PycModel.StmtSkel PycModel.View PycModel.FullExpr PycModel.DeclParse PycModel.DeclSkel PycModel.TransUnit in
 /-- non-vacuity, declarations at every depth:
